@@ -54,6 +54,11 @@ def discover_caches(F, E, cls):
     return flags, caches, builders, guarded
 
 
+def readset_inputs(F, cls):
+    """members that are not mutable (the polynomial's own data: their sizes are functions of the current inputs)"""
+    return {x["name"] for x in F.record(cls)["fields"] if not x.get("mutable")}
+
+
 def run(chk):
     F = facts_for(chk)
     E = Effects(F)
@@ -62,6 +67,30 @@ def run(chk):
         rec = F.record(cls)
         flags, caches, builders, guarded = discover_caches(F, E, cls)
         allflags = frozenset(flags)
+        # a builder must not make part of what it builds depend on the size one of its buffers was left with: under such
+        # a test it may only (re)size that very buffer (a grow-only buffer); anything else written there is kept from an
+        # earlier polynomial whenever the sizes happen to agree
+        fieldnames = {x["name"] for x in rec["fields"]}
+        for fl, b in builders.items():
+            for g in [b] + [h for h in F.reachable(b, stop=lambda h: h.get("cls") != cls) if h.get("cls") == cls]:
+                badw = []
+                for nd in walk(g.get("body")):
+                    if nd.get("k") != "if" or nd.get("constexpr"):
+                        continue
+                    sized = {x["obj"]["field"] for x in walk(nd.get("cond")) if x.get("k") == "call" and callee(x).get("name") in ("rows", "cols", "size", "capacity")
+                             and is_this_mem(x.get("obj")) and x["obj"]["field"] in fieldnames and x["obj"]["field"] not in readset_inputs(F, cls)}
+                    if not sized:
+                        continue
+                    for br in (nd.get("then"), nd.get("else")):
+                        for w in walk(br):
+                            if w.get("k") == "mem" and is_this_mem(w) and w["field"] in fieldnames and w["field"] not in sized and w["field"] not in flags:
+                                for path, how, wn in E.function_writes_local({"body": br, "params": g["params"], "fid": g["fid"], "cls": cls, "name": g["name"], "full": g["full"]}):
+                                    if path[0] == "this" and len(path) >= 2 and path[1] == w["field"]:
+                                        badw.append((nd, w["field"], sorted(sized)))
+                                        break
+                chk.ob("C11-R2", "%s::%s (builds the cache guarded by %s): nothing but the buffer itself is (re)built under a test of the size a buffer was left with" % (cls, g["name"], fl),
+                       not badw, loc(g, badw[0][0]) if badw else loc(g), "member %s is written only when the previous size of %s differs" % (badw[0][1], badw[0][2]) if badw else "no such test",
+                       construct="%s/%s/no-history-sized-rebuild" % (cls, g["name"]))
         # what the builders read (non-mutable members): the invalidation read-set
         readset = set()
         for fl, b in builders.items():
